@@ -84,3 +84,9 @@ pub open spec fn decimal_u32(b: Seq<u8>) -> Option<u32> {
     if digits.len() == 0 || !all_digits(digits) || dec_value(digits, digits.len() as int) > 0xffff_ffff { None }
     else { Some(dec_value(digits, digits.len() as int) as u32) }
 }
+
+/// ASSUMED link between this prelude's `utf8` and vstd's `str::spec_bytes`: both denote the UTF-8 encoding of the string
+#[verifier::external_body]
+pub proof fn axiom_utf8_spec_bytes(s: &str)
+    ensures s.spec_bytes() == utf8(s@)
+{}
